@@ -656,7 +656,7 @@ Proof.
   induction rem as [|r IH]; intros s m Hm H; simpl.
   - destruct (get_m s m); auto. apply Q5_finish_m; auto.
   - destruct (get_m s m) as [x|]; auto.
-    destruct (m_bad x).
+    destruct (nth (m_idx x) (m_bad x) false).
     + apply IH; auto.
     + unfold try_start. destruct (closed s).
       * apply Q5_finish_m; auto.
